@@ -712,7 +712,13 @@ def execute(case, keep_text=False):
                     if ref['path'] is not None and any(
                             r_.get('corrupt') for r_ in store[ref['path']]):
                         continue      # discovery may fail beside a torn file
-                    got = set(OpacityCache().find_list_of_molecules())
+                    try:
+                        got = set(OpacityCache().find_list_of_molecules())
+                    except Exception as e:    # noqa
+                        viol('listing-raised', 'xsec:' + type(e).__name__,
+                             'listing the molecules of an intact store '
+                             'raised %r' % (e,), step)
+                        raise Stop()
                     want = set(ref['served'])
                     if ref['path'] is not None:
                         want |= set(r['mol'] for r in store[ref['path']])
@@ -725,7 +731,13 @@ def execute(case, keep_text=False):
                 elif k == 'list_kt':
                     if ref['kt_path'] is None:
                         continue
-                    got = set(KTableCache().find_list_of_molecules())
+                    try:
+                        got = set(KTableCache().find_list_of_molecules())
+                    except Exception as e:    # noqa
+                        viol('listing-raised', 'ktable:' + type(e).__name__,
+                             'listing the k-tables of an intact store '
+                             'raised %r' % (e,), step)
+                        raise Stop()
                     want = set(f['mol'] for f in cfg['kt_dirs'][ref['kt_path']])
                     if got != want:
                         viol('listing', 'ktable', 'k-tables available: cache '
